@@ -493,6 +493,20 @@ def generate(rng, tier):
         cases.append(_flags(rng, {"kind": "batches", "ns": [rng.randrange(1, 50) for _ in range(k)],
                                   "max": rng.choice([1, 7, 63, 64, 65, k - 1, k, k + 1]),
                                   "labels": [rng.randrange(0, 5) for _ in range(k)]}))
+    # size ladder across the round numbers (255 .. 1025 circuits / groups / weights; the property bounds none of them)
+    for k in rng.sample([255, 256, 257, 511, 512, 513, 1000, 1023, 1024, 1025], 10 if big else 4):
+        m = rng.choice([3, 8, 64])
+        cases.append(_flags(rng, {"kind": "expand_sizes", "ns": [rng.randrange(1, 4 * m) for _ in range(k)], "m": m,
+                                  "labels": [rng.randrange(0, 7) for _ in range(k)]}))
+        cases.append(_flags(rng, {"kind": "batches", "ns": [rng.randrange(1, 50) for _ in range(k)],
+                                  "max": rng.choice([1, 7, 64, 128, 255, 256, 257, 1024, k - 1, k, k + 1]),
+                                  "labels": [rng.randrange(0, 5) for _ in range(k)]}))
+        mults = [rng.choice([1, 1, 2, 3]) for _ in range(k)]
+        cases.append({"kind": "combine_bitstrings", "all": _gen_bitstrings(rng, sum(mults)), "mults": mults})
+        cases.append({"kind": "combine_counts", "all": _gen_counts(rng, sum(mults)), "mults": mults})
+        one = [k]      # ONE circuit run in k copies
+        cases.append({"kind": "combine_counts", "all": _gen_counts(rng, k), "mults": one})
+        cases.append({"kind": "scale", "values": [rng.choice([1, 2, 3]) for _ in range(k)], "total": rng.choice([k - 1, k, k + 1, 7 * k + 3]), "exact": False})
     for _ in range(400 if big else 80):
         c = _gen_scale(rng)
         r = rng.random()
